@@ -3,6 +3,7 @@ import Capella.Lemmas.IndexUnique
 import Capella.Lemmas.IndexHref
 import Capella.Lemmas.IndexApi
 import Capella.Lemmas.AccessorApi
+import Capella.Lemmas.AccessorProps
 
 /-!
 # C03 — UUID and type lookups always agree with the actual model tree
@@ -149,6 +150,14 @@ theorem after_any_api_session_lookup_is_exact (t : Tables) (cs : List (Call × L
   exact ⟨fun n hn => lookup_sound _ k n (fun f hf => (hi.inv.cons f hf).1) hn,
          fun f hf e he hk => lookup_complete _ k (fun f hf => (hi.inv.cons f hf).1) hi.inv.ids f hf e he hk,
          fun hk => lookup_absent _ k (fun f hf => (hi.inv.cons f hf).1) hk⟩
+
+/-- Moving an object into a list owned by the object itself or by one of its own descendants is refused before
+anything is un-indexed (the unrepaired code un-indexed the whole subtree and only then failed in lxml, so `by_uuid` lost
+elements that were still in the tree): the call raises ValueError and every tree and every index is as before. -/
+theorem move_below_itself_changes_nothing (parent idx v : Nat) (s : State)
+    (h : (subtreeRows s v).any (·.nid == parent) = true) :
+    (moveElem parent idx v s).val = .error .valueError ∧ Same s (moveElem parent idx v s).st :=
+  moveElem_below_itself parent idx v s h
 
 end Accessor
 
